@@ -259,6 +259,9 @@ def run(rep, facts, tier):
     # R09.10: skipping an unusable change moves the frontier like a GAP does; the DataReader has to hear of it (seed C09f was reported by ./check C13 only)
     from rdv import report as _report
     _report.borrow(rep, facts, tier, 'C13', {'R13.3': 'R09.10'})
+    # a completed assembly buffer leaves the assembler on every path, also when its bytes do not parse (after seed C09g: the buffer left behind by `?` counts as partially
+    # received for ever, the unusable sample is never skipped and blocks the reliable reader); and the meaning of "partially received"
+    _report.borrow(rep, facts, tier, 'C05', {'R05.15': 'R09.12', 'R05.18': 'R09.13'})
 
 
 # hazard key -> (class, reason); sites on the pinned tree, each read and judged
